@@ -127,6 +127,28 @@ func width(mode int) int {
 // Probe receives the names of the encoder paths taken.
 type Probe func(string)
 
+// ECIPrefix is the bit sequence that, at the start of a message (Upper mode),
+// announces an extended channel interpretation: shift to Punct, FLG(n), the
+// digit count n (1..6) and the decimal digits as Digit-table codes; the
+// message continues in Upper mode.
+func ECIPrefix(eci int) []bool {
+	var ds []int
+	for v := eci; ; v /= 10 {
+		ds = append([]int{v % 10}, ds...)
+		if v < 10 {
+			break
+		}
+	}
+	out := &bitsBuf{}
+	out.put(0, 5) // P/S in Upper
+	out.put(0, 5) // FLG(n) in Punct
+	out.put(len(ds), 3)
+	for _, d := range ds {
+		out.put(d+2, 4)
+	}
+	return out.b
+}
+
 // HighLevel encodes text into the Aztec bit stream.
 func HighLevel(text []byte, ch Chooser, probe Probe) []bool {
 	out := &bitsBuf{}
